@@ -583,9 +583,18 @@ class Engine:
                     for c, cnd in zip(reversed(cells[:-1]), reversed(conds[:-1])): v = s.ite_b(cnd, c[0], v, c0[1])
                     for i in range(n): m.mem.d[a + i] = (v, c0[1], i); done.add(a + i)
                     continue
-            bs = [byte(c) for c in cells]
+            # a location that some merged path never initialised: reading it there would be a read of indeterminate memory,
+            # so the merged content may be whatever the initialised paths hold (no fresh symbols needed)
+            live = [(c, cnd) for c, cnd in zip(cells, conds) if c is not None]
+            if len(live) < len(cells):
+                if not live: continue
+                if all(same(c, live[0][0]) for c, _ in live):
+                    m.mem.d[a] = live[0][0]; continue
+                cells2 = [c for c, _ in live]; conds2 = [cnd for _, cnd in live]
+            else: cells2, conds2 = cells, conds
+            bs = [byte(c) for c in cells2]
             v = bs[-1]
-            for b, c in zip(reversed(bs[:-1]), reversed(conds[:-1])): v = s.ite_b(c, b, v, 8)
+            for b, c in zip(reversed(bs[:-1]), reversed(conds2[:-1])): v = s.ite_b(c, b, v, 8)
             m.mem.d[a] = (v, 8, 0)
 
     def join_node(s, m, parents):
@@ -992,7 +1001,7 @@ class Engine:
     def enum_values(s, term, pc, limit=600, record=True):
         if is_c(term): return [term]
         used = False
-        if s.phase == 'threads':
+        if s.phase == 'threads' and not getattr(s, 'sequential', False):
             r = None
             try: r = s.subst_enum(term)
             except Unsupported: r = None
@@ -1511,7 +1520,7 @@ class Engine:
             s.env.append(z3.ULT(tns, int(s.opts.get('maxtns', str(1 << 62)))))
         elif mode == 'sec':
             sec = s.fresh('sec', 64); nsec = 0; tns = simp(sec * z3.BitVecVal(1000000000, 64))
-            s.env.append(z3.ULT(sec, 1 << 32))
+            s.env.append(z3.And(z3.ULT(sec, int(s.opts.get('maxsec', str(1 << 32)))), z3.UGE(sec, int(s.opts.get('minsec', '0')))))
         else:
             sec = s.fresh('sec', 64); nsec = s.fresh('nsec', 64)
             tns = simp(sec * z3.BitVecVal(1000000000, 64) + nsec)
